@@ -149,8 +149,9 @@ def family_order(tier, seed, n=None):
 def family_starve(tier, seed, n=None):
     """no legal value is starved: exact marginal supports on micro-programs + inferred bounds (hook) on larger ones"""
     out = []
-    n = n or (16 if tier == "quick" else 200)
-    kinds = ["rel_nr", "nr_rel", "in_rl", "rel_lit", "two", "arith_nr", "disabled", "unmentioned", "mixed_sign"]
+    n = n or (26 if tier == "quick" else 260)
+    kinds = ["rel_nr", "nr_rel", "in_rl", "rel_lit", "two", "arith_nr", "disabled", "unmentioned", "mixed_sign",
+             "cond_in", "nr_arith_left", "cond_in", "nr_arith_left"]
     for t in range(n):
         core = t < n // 2
         rnd = random.Random((1414 if core else 5300 + seed) * 100003 + t)
@@ -173,6 +174,16 @@ def family_starve(tier, seed, n=None):
             body = [E(B(rel, F("a"), F("b"))), E(B(rnd.choice(["le", "ge"]), F("b"), F("c")))]
         elif kind == "arith_nr":
             body = [E(B(rel, F("a"), B(rnd.choice(["add", "sub", "and", "xor"]), F("c"), F("d"))))]
+        elif kind == "cond_in":
+            # a membership under ONE conditional level: it limits a only in the solutions where the condition holds
+            cond = B("eq", F("b"), lit(rnd.randrange(2)))
+            mem = E({"k": "in", "e": F("a"), "items": [{"k": "v", "e": lit(v)} for v in rnd.sample(range(4), 2)], "neg": False})
+            body = [{"k": "if", "arms": [{"c": cond, "body": [mem]}], "els": []}] if rnd.random() < 0.5 else \
+                   [{"k": "imp", "c": cond, "body": [mem]}]
+        elif kind == "nr_arith_left":
+            # a non-random EXPRESSION (not a bare field) on the left of the relation
+            body = [E(B(["ge", "le", "gt", "lt"][(t // len(kinds)) % 4], B(rnd.choice(["add", "or"]), F("c"), F("d")), F("a"))),
+                    E(B("ge", F("a"), lit(rnd.choice([0, 1]))))]
         elif kind == "disabled":
             body = [E(B("le", F("a"), F("b")))]
             blocks.append(blk("c9", [E(B("eq", F("a"), lit(0))), E(B("lt", F("b"), lit(2)))]))
@@ -188,8 +199,8 @@ def family_starve(tier, seed, n=None):
         for rep in range(2):
             # previous values left by earlier calls / assignments, different non-random environments
             ops.append({"op": "set", "p": "o1.a", "v": bits(rnd.choice([0, 3, 7]) & ((1 << fields[0]["w"]) - 1), fields[0]["w"])})
-            ops.append({"op": "set", "p": "o1.c", "v": bits(rnd.randrange(4), 2)})
-            ops.append({"op": "set", "p": "o1.d", "v": bits(rnd.randrange(4), 2)})
+            ops.append({"op": "set", "p": "o1.c", "v": bits(rnd.randrange(2) if kind == "nr_arith_left" else rnd.randrange(4), 2)})
+            ops.append({"op": "set", "p": "o1.d", "v": bits(rnd.randrange(3) if kind == "nr_arith_left" else rnd.randrange(4), 2)})
             ops.append({"op": "call", "call": mcall()})
             ops.append({"op": "explore", "call": mcall(), "paths": ["o1.a", "o1.b"], "max_paths": 4000 if tier == "quick" else 40000})
         out.append({"id": "S14/%s/%s/%d" % (kind, "core" if core else "s%d" % seed, t), "world": world, "ops": ops, "tags": []})
